@@ -116,7 +116,7 @@ def main(tier='quick', seed=0):
     records, errors, lib, inlined = [], list(pre_errors), set(), set()
     paths = 0
     for r in [warm] + results:
-        records.extend(r.get('records', []))
+        records.extend(x for x in r.get('records', []) if x.get('kind') != 'commute')     # order-independence is C14's obligation
         if r.get('error'):
             errors.append(f"{r['error']} (job {r['job']})")
         lib.update(r.get('lib', []))
